@@ -87,7 +87,9 @@ func (c *Chip) PaceLast() (sharedX []byte, ksEnc, ksMac []byte, slice string) {
 }
 
 // PaceTermPubs returns the terminal's mapping / key-agreement public keys as received.
-func (c *Chip) PaceTermPubs() (mapPub, kaPub []byte) { return c.pace.TermMapPubRaw, c.pace.TermKaPubRaw }
+func (c *Chip) PaceTermPubs() (mapPub, kaPub []byte) {
+	return c.pace.TermMapPubRaw, c.pace.TermKaPubRaw
+}
 
 // PacePasswordKey computes K_pi = KDF_pi(f(pi)).
 func PacePasswordKey(pwdRef int, mrzInfo, can string, cp mac.Cipher) []byte {
@@ -224,15 +226,11 @@ func (c *Chip) doGeneralAuthenticate(p *apdu.Command, protected bool, chain bool
 		ps.TermMapPubRaw = append([]byte{}, v...)
 		ps.skMap = c.randScalar(cv)
 		if c.Cfg.SteerMappingLeadingZero {
-			ps.skMap = c.steer(cv, ps.skMap, func(k *big.Int) bool {
-				h := cv.ScalarMult(k, pkIFD)
-				return h.X != nil && cv.FixedBytes(h.X)[0] == 0
-			}, "map-shared-x00")
+			ps.skMap = c.steer(cv, ps.skMap, pkIFD, func(h ecc.Point) bool { return cv.FixedBytes(h.X)[0] == 0 }, "map-shared-x00")
 		}
 		ps.pkMapIC = cv.ScalarBaseMult(ps.skMap)
 		if c.Cfg.SteerOwnPubLeadingZero {
-			ps.skMap = c.steer(cv, ps.skMap, func(k *big.Int) bool {
-				q := cv.ScalarBaseMult(k)
+			ps.skMap = c.steer(cv, ps.skMap, cv.G(), func(q ecc.Point) bool {
 				return cv.FixedBytes(q.X)[0] == 0 || cv.FixedBytes(q.Y)[0] == 0
 			}, "map-pub-00")
 			ps.pkMapIC = cv.ScalarBaseMult(ps.skMap)
@@ -264,14 +262,10 @@ func (c *Chip) doGeneralAuthenticate(p *apdu.Command, protected bool, chain bool
 		ps.TermKaPubRaw = append([]byte{}, v...)
 		ps.skDH = c.randScalar(cv)
 		if c.Cfg.SteerAgreementLeadingZero {
-			ps.skDH = c.steer(cv, ps.skDH, func(k *big.Int) bool {
-				q := cv.ScalarMult(k, pkIFD)
-				return q.X != nil && cv.FixedBytes(q.X)[0] == 0
-			}, "ka-shared-x00")
+			ps.skDH = c.steer(cv, ps.skDH, pkIFD, func(q ecc.Point) bool { return cv.FixedBytes(q.X)[0] == 0 }, "ka-shared-x00")
 		} else if c.Cfg.SteerOwnPubLeadingZero {
-			ps.skDH = c.steer(cv, ps.skDH, func(k *big.Int) bool {
-				q := cv.ScalarMult(k, ps.ghat)
-				return q.X != nil && (cv.FixedBytes(q.X)[0] == 0 || cv.FixedBytes(q.Y)[0] == 0)
+			ps.skDH = c.steer(cv, ps.skDH, ps.ghat, func(q ecc.Point) bool {
+				return cv.FixedBytes(q.X)[0] == 0 || cv.FixedBytes(q.Y)[0] == 0
 			}, "ka-pub-00")
 		}
 		ps.pkDHIC = cv.ScalarMult(ps.skDH, ps.ghat)
@@ -327,18 +321,24 @@ func (c *Chip) doGeneralAuthenticate(p *apdu.Command, protected bool, chain bool
 	return fail(0x6985)
 }
 
-// steer searches scalars k, k+1, ... for one satisfying pred (an edge slice).
-func (c *Chip) steer(cv *ecc.Curve, k *big.Int, pred func(*big.Int) bool, label string) *big.Int {
+// steer searches scalars k, k+1, ... for one whose multiple k*base satisfies
+// pred (an edge slice); the multiples are computed incrementally (one point
+// addition per candidate).
+func (c *Chip) steer(cv *ecc.Curve, k *big.Int, base ecc.Point, pred func(ecc.Point) bool, label string) *big.Int {
 	cur := new(big.Int).Set(k)
+	q := cv.ScalarMult(cur, base)
 	one := big.NewInt(1)
 	for i := 0; i < c.Cfg.SteerTries; i++ {
-		if pred(cur) {
+		if q.X != nil && pred(q) {
 			c.pace.Slice = label
 			return cur
 		}
 		cur = new(big.Int).Add(cur, one)
 		if cur.Cmp(cv.N) >= 0 {
 			cur = big.NewInt(1)
+			q = base
+		} else {
+			q = cv.Add(q, base)
 		}
 	}
 	c.pace.Slice = label + "(steering failed)"
